@@ -31,8 +31,11 @@ StepEv(acc, k, c, P) ==
      LET logged == BlockRecs(pf)
          hdr == SubSeq(e.stream, 1, pf.hend - 1)
          hdrOk == acc.hdr = <<>> \/ hdr = acc.hdr
-         conf == e.op = "write" /\ Conforms(P.t, e.rec, P.st.names, o)
-         r == IF conf THEN Norm(P.t, e.rec, P.st.names, o) ELSE [ok |-> TRUE, v |-> VNone]
+         conf0 == e.op = "write" /\ Conforms(P.t, e.rec, P.st.names, o)
+         r0 == IF conf0 THEN Norm(P.t, e.rec, P.st.names, o) ELSE [ok |-> FALSE]
+         \* a record is writable when it conforms and has a defined stored form (a float beyond binary32 range under 'float' has none)
+         conf == conf0 /\ r0.ok
+         r == IF conf THEN r0 ELSE [ok |-> TRUE, v |-> VNone]
          rs == IF e.op = "wblock" THEN acc.donors[e.donor][e.bi] ELSE <<>>
          next == UNION { { s2 \in Cands(s, logged, r.v, rs) :
                              CASE e.op = "create" -> s2 = WInit /\ logged = <<>>
